@@ -16,7 +16,6 @@ Record sim_modes : Prop := {
   sm_store : forall v, goodo (store_red m1 v) -> store_red m2 v = store_red m1 v;
   sm_truthy : forall v, goodo (truthy m1 v) -> truthy m2 v = truthy m1 v;
   sm_or : forall v, goodo (or_step m1 v) -> or_step m2 v = or_step m1 v;
-  sm_last : forall v, goodo (last_red m1 v) -> last_red m2 v = last_red m1 v;
   sm_short : goodo (short_args m1) -> short_args m2 = short_args m1;
   sm_loc : forall fs sc x, goodo (locate_m m1 fs sc x) -> locate_m m2 fs sc x = locate_m m1 fs sc x
 }.
@@ -67,7 +66,6 @@ Ltac rw_lead :=
   | G : goodo (store_red m1 ?v) |- _ => rewrite (sm_store SM _ G); clear G
   | G : goodo (truthy m1 ?v) |- _ => rewrite (sm_truthy SM _ G); clear G
   | G : goodo (or_step m1 ?v) |- _ => rewrite (sm_or SM _ G); clear G
-  | G : goodo (last_red m1 ?v) |- _ => rewrite (sm_last SM _ G); clear G
   | G : goodo (short_args m1) |- _ => rewrite (sm_short SM G); clear G
   | G : goodo (locate_m m1 ?fs ?sc ?x) |- _ => rewrite (sm_loc SM _ _ _ G); clear G
   end.
@@ -232,7 +230,7 @@ Ltac fin := first
   | apply Hev; assumption | apply ev_seq_sim; assumption | apply ev_cond_sim; assumption
   | apply ev_and_sim; assumption | apply ev_or_sim; assumption | apply ev_letstar_sim; assumption
   | apply ev_setq_sim; assumption | apply apply_fn_sim; assumption | apply ev_opt_sim; assumption
-  | apply pair_sim; [apply (sm_last SM)|assumption] ].
+  ].
 Ltac pre :=
   match goal with
   | H : good (bindo (if ?b then _ else _) _ _) |- _ => destruct b eqn:?
@@ -265,8 +263,6 @@ Proof.
       * destruct (is_nil (primary v)) eqn:Hp; [congruence|]. intros _. destruct v; try discriminate. reflexivity.
       * intros _. destruct v; try discriminate; reflexivity.
   - reflexivity.
-  - intros v; destruct m; simpl; try reflexivity; destruct (is_values v) eqn:Hv; try congruence; intros _.
-    destruct v; try discriminate; reflexivity.
   - destruct m; simpl; congruence.
   - intros fs sc x; destruct m; simpl; try reflexivity.
     + destruct (loc_eqb (locate false fs sc x) (locate true fs sc x)) eqn:Hl; [|congruence].
